@@ -37,10 +37,13 @@ G2(e, subj) == /\ BadDecompress(e) /\ Current(e)
                /\ frames[e.id].f.len = frames[e.id].x.len + 1
 
 (* C02-KF3: AdaptiveCompressor / RealtimeCompressor frames carry no algorithm tag; after set_algorithm /   *)
-(* set_mode to an identity decoder (NoCompressor) an earlier frame "decompresses" to the frame itself.      *)
+(* set_mode to an identity decoder (NoCompressor) an earlier frame "decompresses" to the frame itself       *)
+(* (or to the frame behind a one-byte marker).                                                               *)
 G3(e, subj) == /\ BadDecompress(e) /\ ~Current(e)
                /\ subj.fam \in {"adaptive", "realtime"}
-               /\ e.ok /\ e.y = frames[e.id].f
+               /\ e.ok
+               /\ \/ e.y = frames[e.id].f                         \* the frame itself
+                  \/ e.y.len + 1 = frames[e.id].f.len             \* the frame without a one-byte marker
 
 (* C02-KF4: AdaptiveCompressor::compress(b"") panics in calculate_hash (data[0] of an empty slice).        *)
 G4(e, subj) == /\ subj.fam = "adaptive"
